@@ -749,7 +749,18 @@ def rule_order(em):
                     # blocks of the loop = cycle containing nxt; exits not via None edge & not failure => bad
                     okk, why = _loop_exits_only_on_none(body, nxt)
                 if okk:
-                    obs.append(ok('ORDER-O7', key, 'the loop over %s is left towards an Ok return only when the iterator is exhausted' % prov_str(p), cs[0].where()))
+                    # .. and no item is passed over inside the loop: from the iterator step the next step is not
+                    # reachable without evaluating this child (`if seen(key) { continue }` drops an entry's value)
+                    loop = set().union(*[s for s in body.sccs() if nxt.bb in s])
+                    site_bbs = {c.bb for c in cs}
+                    if site_bbs <= loop and nxt.bb not in site_bbs:
+                        for s in body.succ[nxt.bb]:
+                            if s in loop and s not in site_bbs and nxt.bb in body.reachable_from(s, avoid=site_bbs):
+                                okk = False
+                                why = 'from the iterator step (bb%d) the next step is reachable without evaluating it (an iteration can `continue` past the child)' % nxt.bb
+                                break
+                if okk:
+                    obs.append(ok('ORDER-O7', key, 'the loop over %s is left towards an Ok return only when the iterator is exhausted, and every iteration evaluates the child' % prov_str(p), cs[0].where()))
                 else:
                     obs.append(bad('ORDER-O7', key, 'items of %s can be skipped: %s' % (prov_str(p), why), cs[0].where(), body=body.name, bb=cs[0].bb))
         # tuple items: key and value of the same entry must both be evaluated in each iteration
